@@ -88,6 +88,9 @@ def gen_program(rng, kind, ntx=None, small=False, multi_undo=None):
     for i in range(ntx):
         ops = []
         nops = rng.choice([1, 1, 2, 2, 3]) if not small else rng.choice([1, 2])
+        empty = rng.random() < 0.08                # an EMPTY transaction (tlen = header length)
+        if empty:
+            nops = 0
         in_changes = kind.startswith('demo') and i >= split
         for _ in range(nops):
             r = rng.random()
@@ -123,7 +126,7 @@ def gen_program(rng, kind, ntx=None, small=False, multi_undo=None):
                     n += 1
                     ops.append(['s', o, mkdata(o, n, rng).hex()])
                     live[o] = True
-        if not ops:
+        if not ops and not empty:
             n += 1
             ops.append(['s', oids[0], mkdata(oids[0], n, rng).hex()])
             live[oids[0]] = True
@@ -136,7 +139,7 @@ def gen_program(rng, kind, ntx=None, small=False, multi_undo=None):
         steps.append(dict(t=tid, u=rng.choice([b'', b'u', b'user.name', b'\xc3\xa9']).hex(),
                           d=rng.choice([b'', b'd', b'a description. with dots.', b'x' * 30]).hex(),
                           e=rng.choice([None, None, 1, 'ext.']), ops=ops))
-        if ops[0][0] != 'u' or rng.random() < 0.8:
+        if ops and (ops[0][0] != 'u' or rng.random() < 0.8):
             undoable.append(len(steps) - 1)
         tid += GAP * rng.choice([1, 1, 2, 7])
         if rng.random() < 0.15 and i < ntx - 1 and not (kind.startswith('demo') and i >= split - 1):
@@ -145,6 +148,8 @@ def gen_program(rng, kind, ntx=None, small=False, multi_undo=None):
             undoable = []
     if canundo and rng.random() < (0.35 if multi_undo is None else multi_undo):
         tid = multi_undo_scenario(rng, steps, tid, rng.choice([2, 2, 3]))
+    if canundo and rng.random() < (0.35 if multi_undo is None else multi_undo):
+        tid = uncreation_chain_scenario(rng, steps, tid, rng.choice([3, 4, 5]), candel and rng.random() < 0.5)
     return dict(kind=kind, steps=steps, split=split)
 
 
@@ -170,6 +175,25 @@ def multi_undo_scenario(rng, steps, tid, k):
     add([['u', r] for r in reversed(revs[1:])])
     last = add([['s', oid, mkdata(oid, n + k + 1, rng).hex()]])
     add([['u', last]])
+    return tid
+
+
+def uncreation_chain_scenario(rng, steps, tid, k, use_delete):
+    """append: create a fresh oid; un-create it (undo of the creation, or deleteObject); then k
+    undos each undoing the previous transaction: the records alternate between 'back pointer to the
+    pickle' and 'back pointer (over 1, 2, … hops) to the UN-CREATION record' — the iterator must
+    yield data None for the latter (_loadBackTxn(…, fail=False)), restore must write them back."""
+    oid = 9
+
+    def add(ops, d=b'uncreation.chain'):
+        nonlocal tid
+        steps.append(dict(t=tid, u='', d=d.hex(), e=None, ops=ops))
+        tid += GAP
+        return len(steps) - 1
+    first = add([['s', oid, mkdata(oid, 2000 + len(steps), rng).hex()]])
+    last = add([['d', oid]] if use_delete else [['u', first]])
+    for _ in range(k):
+        last = add([['u', last]])
     return tid
 
 
@@ -460,33 +484,57 @@ def run_copy_case(case, tmp):
     res = dict(error=None)
     b = None
     dst = None
+    phase = 'build'
     try:
         b = build(case['prog'], d)
         src = b.storage
         res['skipped'], res['undos'] = b.skipped, b.undos
+        phase = 'source-iterator'
         src_dump = iter_dump(src.iterator())
         res['src_dump'] = src_dump
         res['src_blobs'] = case['prog']['kind'] == 'fileblob'
+        # every iterator range at every tid boundary (start = tid-1, tid, tid+1; stop open or at a
+        # later boundary): cheap, and exercises both scan directions of FileIterator._skip_to_start
+        phase = 'range-iterator'
+        rc = []
+        alltids = [int(t[0], 16) for t in src_dump]
+        for a in sorted({x + dlt for x in alltids for dlt in (-1, 0, 1)}):
+            zs = [None] + [x for x in alltids if x >= a][1:3]
+            for z in zs:
+                it = src.iterator(p64(a), None if z is None else p64(z))
+                try:
+                    got = [t.tid.hex() for t in it]
+                except Exception as e:
+                    got = 'raised %s: %s' % (type(e).__name__, str(e)[:120])
+                finally:
+                    close = getattr(it, 'close', None)
+                    if close is not None:
+                        close()
+                rc.append(('%016x' % a, None if z is None else '%016x' % z, got))
+        res['range_checks'] = rc
+        phase = 'open-destination'
         dst, dpath = open_storage(case['dst'], d, 'dst')
         rng_ = case.get('range')
         if rng_:
             a = None if rng_[0] is None else bytes.fromhex(rng_[0])
             z = None if rng_[1] is None else bytes.fromhex(rng_[1])
             other = RangeSource(src, a, z)
+            phase = 'source-iterator'
             res['range_dump'] = iter_dump(src.iterator(a, z))
         else:
             other = src
-        try:
-            dst.copyTransactionsFrom(other)
-        except Exception as e:
-            res['error'] = '%s: %s' % (type(e).__name__, str(e)[:200])
-            return res
+        phase = 'copy'
+        dst.copyTransactionsFrom(other)
+        phase = 'destination-iterator'
         res['dst_dump'] = iter_dump(dst.iterator())
         both_blobs = res['src_blobs'] and case['dst'] in ('fileblob', 'blobwrap')
         res['both_blobs'] = both_blobs
+        phase = 'source-queries'
         if not rng_:
             res['src_q'] = query_dump(src, src_dump, blobs=both_blobs)
+        phase = 'destination-queries'
         res['dst_q'] = query_dump(dst, res['dst_dump'], blobs=both_blobs)
+        phase = 'blobs'
         if both_blobs:
             from ZODB.blob import is_blob_record
             bl = []
@@ -507,8 +555,10 @@ def run_copy_case(case, tmp):
         with open(dpath, 'rb') as f:
             img = f.read()
         res['dst_img'] = (len(img), '%016x' % fnv64(img))
-    except Exception as e:      # building the source failed: infrastructure, not a verdict
-        res['infra'] = '%s: %s' % (type(e).__name__, str(e)[:300])
+    except Exception as e:
+        # an exception of the real code is an OBSERVATION, judged by the oracle (judge_copy)
+        res['error'] = '%s: %s' % (type(e).__name__, str(e)[:200])
+        res['phase'] = phase
     finally:
         for s in (dst, b):
             try:
@@ -550,6 +600,13 @@ def model_dump_str(dump):
 
 def judge_copy(case, res):
     """direct oracle; returns (signature, what) or None"""
+    if res.get('error') and res.get('phase') == 'build':
+        return None          # counted by the caller (copy:source-build-raised); not a copy matter
+    if res.get('error') and res.get('phase', 'copy') != 'copy':
+        sig = {'source-iterator': 'C17:source-iterator-raised',
+               'destination-iterator': 'C17:destination-iterator-raised'}.get(
+            res['phase'], 'C17:%s-raised' % res['phase'])
+        return sig, '%s raised %s' % (res['phase'], res['error'])
     if res.get('error'):
         sig = 'C17:copy-raises:' + res['error'].split(':')[0]
         if 'extension_bytes' in res['error']:
@@ -557,6 +614,11 @@ def judge_copy(case, res):
         if res['error'].startswith('UndoError'):
             sig = 'C17:restore-missing-prev-txn'
         return sig, 'copyTransactionsFrom raised ' + res['error']
+    for (a, z, got) in res.get('range_checks', []):
+        want = [t[0] for t in res['src_dump'] if t[0] >= a and (z is None or t[0] <= z)]
+        if got != want:
+            return ('C17:iterator-range', 'iterator(%s, %s) yielded %r, the transactions in range are %r'
+                    % (a, z, got, want))
     exp_dump = res['range_dump'] if case.get('range') else res['src_dump']
     # FileStorage <-> FileStorage keeps extension bytes verbatim; other sources re-pickle the dict
     eb = case['prog']['kind'] in ('file', 'fileblob', 'demo-ff')
@@ -729,12 +791,17 @@ def judge_recover(raw, txns, oview, dmg, obs):
     img = apply_damage(raw, dmg)
     ds, de = damage_range(raw, dmg)
     if obs['status'] == 'timeout':
+        # classified by WHERE the run hangs (stack of the confirming re-run), not by the input
+        where = obs.get('where') or []
         sig = 'C17:recover-nontermination'
-        if b'.' in img[-8:]:
-            sig = 'C17:scan-nontermination'
-        if dmg.get('crafted') == 'backcycle':
+        if '_loadBack_impl' in where[:4]:
             sig = 'C17:recover-nontermination-backpointer-cycle'
-        return 'violation', sig, 'fsrecover.recover did not terminate within the watchdog time'
+        elif where[:1] == ['scan'] or (not where and b'.' in img[-8:]):
+            sig = 'C17:scan-nontermination'
+        elif 'tpc_begin' in where[:4]:
+            sig = 'C17:recover-blocks-on-output-commit-lock'
+        return 'violation', sig, 'fsrecover.recover did not terminate within the watchdog time ' \
+            '(hanging in: %s)' % ' < '.join(where[:5])
     if obs['status'] == 'notfs':
         if img[:4] == raw[:4] and len(img) >= 4:
             return 'violation', 'C17:recover-refuses-file', 'recover refused a file with intact magic'
@@ -807,15 +874,21 @@ def limited_open(name, mode='r', *a, **k):
     return open(name, mode, *a, **k)
 
 
-def recover_worker(conn, workdir, jobs):
-    """child process: run fsrecover.recover on each damaged image; send one result per job"""
+def recover_worker(conn, workdir, jobs, trace_after=None):
+    """child process: run fsrecover.recover on each damaged image; send one result per job.
+    trace_after: seconds after which the Python stack of a still running job is written to
+    <workdir>.trace (used by the confirming re-run of a timed-out job to say WHERE it hangs)"""
+    import faulthandler
     import ZODB.FileStorage
     from ZODB import fsrecover
     fsrecover.open = limited_open          # module-level rebinding in this child process only
     logging.disable(logging.CRITICAL)
     os.makedirs(workdir, exist_ok=True)
+    tracef = open(workdir + '.trace', 'w') if trace_after else None
     for (jid, img) in jobs:
         conn.send(('start', jid))
+        if tracef:
+            faulthandler.dump_traceback_later(trace_after, file=tracef)
         inp = os.path.join(workdir, 'in.fs')
         outp = os.path.join(workdir, 'out.fs')
         for f in os.listdir(workdir):
@@ -843,12 +916,23 @@ def recover_worker(conn, workdir, jobs):
                 obs['errors'] = buf.getvalue().count('error ')
             except Exception as e:
                 obs = dict(status='crash:output-unreadable:' + type(e).__name__, detail=str(e)[:200])
+        if tracef:
+            faulthandler.cancel_dump_traceback_later()
         conn.send(('done', jid, obs))
     conn.send(('end',))
     conn.close()
 
 
-def run_recover_jobs(jobs, tmp, nproc, watchdog=6.0, max_timeouts=3, confirm=True):
+def read_trace(path):
+    """function names (innermost first) of the stack faulthandler wrote for a hanging job"""
+    try:
+        with open(path) as f:
+            return [l.split(' in ')[-1].strip() for l in f if ' in ' in l and l.lstrip().startswith('File')]
+    except OSError:
+        return []
+
+
+def run_recover_jobs(jobs, tmp, nproc, watchdog=6.0, max_timeouts=3, confirm=True, trace_after=None):
     """jobs: list of (jid, image bytes). returns {jid: obs}; a job that makes no progress for
     `watchdog` seconds (a normal run takes milliseconds) is reported as status 'timeout' (its worker
     is killed and restarted).  After `max_timeouts` of them the remaining jobs are abandoned
@@ -861,7 +945,8 @@ def run_recover_jobs(jobs, tmp, nproc, watchdog=6.0, max_timeouts=3, confirm=Tru
 
     def start(wi, todo):
         parent, child = ctx.Pipe(duplex=False)
-        p = ctx.Process(target=recover_worker, args=(child, os.path.join(tmp, 'rw%d' % wi), todo))
+        p = ctx.Process(target=recover_worker,
+                        args=(child, os.path.join(tmp, 'rw%d' % wi), todo, trace_after))
         p.daemon = True
         p.start()
         child.close()
@@ -899,7 +984,7 @@ def run_recover_jobs(jobs, tmp, nproc, watchdog=6.0, max_timeouts=3, confirm=Tru
             if w in workers and w['cur'] is not None and time.time() - w['t'] > watchdog:
                 w['p'].kill()
                 w['p'].join(5)
-                results[w['cur']] = dict(status='timeout')
+                results[w['cur']] = dict(status='timeout', where=read_trace(os.path.join(tmp, 'rw%d.trace' % w['wi'])))
                 ntimeouts += 1
                 rest = [j for j in w['todo'] if j[0] != w['cur']]
                 workers.remove(w)
@@ -916,7 +1001,8 @@ def run_recover_jobs(jobs, tmp, nproc, watchdog=6.0, max_timeouts=3, confirm=Tru
         # again fails to end (a loaded machine must not produce a false alarm)
         byid = dict(jobs)
         for jid in [j for j, o in results.items() if o.get('status') == 'timeout']:
-            again = run_recover_jobs([(jid, byid[jid])], tmp, 1, watchdog=20.0, max_timeouts=1, confirm=False)
+            again = run_recover_jobs([(jid, byid[jid])], tmp, 1, watchdog=20.0, max_timeouts=1, confirm=False,
+                                     trace_after=10.0)
             results[jid] = again[jid]
     for (jid, _) in jobs:
         results.setdefault(jid, dict(status='skipped'))
@@ -1103,14 +1189,22 @@ def run_copy_part(ck, cases):
     for case in cases:
         res = run_copy_case(case, ck.tmp)
         results.append(res)
-        if res.get('infra'):
-            raise InfraError('building a source failed: %s (case %s)' % (res['infra'], json.dumps(case)[:300]))
+        if res.get('error') and res.get('phase') == 'build':
+            ck.count('copy:source-build-raised')
+            ck.count('copy:source-build-raised:' + res['error'].split(':')[0])
         if res.get('src_dump') is not None and not res.get('error'):
             ls = copy_model_lines(case, res)
             spans.append((len(lines), len(ls)))
             lines += ls
         else:
             spans.append(None)
+    nbuildfail = sum(1 for r in results if r.get('error') and r.get('phase') == 'build')
+    if nbuildfail > max(2, len(cases) // 5):
+        # individual failures to BUILD a source are other properties' business, but when they are the
+        # rule nothing is checked any more: that must not pass silently
+        bad = [(c, r) for c, r in zip(cases, results) if r.get('phase') == 'build'][0]
+        ck.violation('C17:source-build-raised', '%d of %d source histories could not be built, first: %s'
+                     % (nbuildfail, len(cases), bad[1]['error']), bad[0])
     mout = run_driver('Copy', lines) if lines else []
     for case, res, span in zip(cases, results, spans):
         kind = '%s->%s%s' % (case['prog']['kind'], case['dst'], ' range' if case.get('range') else '')
@@ -1159,8 +1253,6 @@ def shrink_copy(ck, case, sig):
         c = dict(case, prog=dict(case['prog'], steps=sub))
         try:
             r = run_copy_case(c, ck.tmp)
-            if r.get('infra'):
-                return False
             v = judge_copy(c, r)
             return bool(v) and v[0] == sig
         except Exception:
@@ -1272,7 +1364,15 @@ def replay_case(ck, case, nproc):
     if case.get('part') == 'copy':
         run_copy_part(ck, [case])
     elif case.get('part') == 'recover':
-        raw, undos = file_bytes(case['prog'], ck.tmp)
+        try:
+            raw, undos = file_bytes(case['prog'], ck.tmp)
+            parse_file(raw)
+        except Exception as e:
+            ck.count('recover:file-build-raised:' + type(e).__name__)
+            if case.get('corpus') is None:
+                ck.violation('C17:source-build-raised', 'the data file of the replayed case cannot be built: %s: %s'
+                             % (type(e).__name__, str(e)[:200]), case)
+            return
         dmg = dict(case['dmg'])
         if dmg['kind'] == 'trunc' and 'cutby' in dmg:
             dmg['n'] = len(raw) - dmg['cutby']
@@ -1315,11 +1415,23 @@ def main(argv=None):
     # (b) recover
     nfiles = 20 if not ck.thorough else 200
     files = []
+    nfail = 0
     for i in range(nfiles):
         big = (i % 10 == 9)
         prog = gen_recover_file(ck.rng, ck.tmp, big=big)
-        raw, undos = file_bytes(prog, ck.tmp)
-        txns = parse_file(raw)
+        try:
+            raw, undos = file_bytes(prog, ck.tmp)
+            txns = parse_file(raw)
+        except Exception as e:
+            # the real code failed to build (or wrote an unparsable) undamaged file: not a recovery
+            # matter; counted, and a violation only when it becomes the rule
+            ck.count('recover:file-build-raised:' + type(e).__name__)
+            nfail += 1
+            if nfail > max(2, nfiles // 5):
+                ck.violation('C17:source-build-raised', 'data files for recovery cannot be built: %s: %s'
+                             % (type(e).__name__, str(e)[:200]), dict(part='recover', prog=prog, dmg=dict(kind='none')))
+                break
+            continue
         if ck.thorough:
             allcuts = (not big) and len(raw) <= 1600
             dmgs = gen_damages(ck.rng, raw, txns, 64 if not allcuts else len(raw),
